@@ -123,6 +123,41 @@ pub fn name_proper(ws: &[&str]) -> TP {
 pub fn pronoun() -> TP {
     (vec![kw("it")], Prim::Ident(Ident::Pronoun))
 }
+/// number literals in every size: 1..25 digits, powers of two and ten and their neighbours, fractions of
+/// 1..20 digits, unsigned exponents up to overflow, leading zeros, bare leading / trailing point
+pub fn numerals() -> Vec<String> {
+    let mut v: Vec<String> = Vec::new();
+    for n in 1..=25usize {
+        v.push(format!("1{}", "0".repeat(n - 1)));
+        v.push("9".repeat(n));
+        v.push(format!("5{}", "0".repeat(n - 1)));
+        v.push(format!("{}1", "1".repeat(n - 1)));
+    }
+    for k in [7u32, 8, 15, 16, 24, 31, 32, 53, 63, 64] {
+        let p: u128 = 1u128 << k;
+        v.push((p - 1).to_string());
+        v.push(p.to_string());
+        v.push((p + 1).to_string());
+        v.push(format!("{}.0", p));
+    }
+    for n in 1..=20usize {
+        v.push(format!("0.{}", "1".repeat(n)));
+        v.push(format!("{}.{}", "7".repeat(n), "3".repeat(n)));
+    }
+    for e in [0u32, 1, 5, 9, 10, 15, 16, 22, 23, 99, 307, 308, 309, 400] {
+        v.push(format!("1e{}", e));
+        v.push(format!("1E{}", e));
+        v.push(format!("1.5e{}", e));
+        v.push(format!("17976931348623157e{}", e));
+    }
+    for s in ["007", "000", "0005.50", ".5", "1.", "0.000001", "0.0000001", "123456789.123456789", "4294967295.5", "0.1", "0.2", "0.30000000000000004", "9007199254740993", "2.2250738585072014e0"] {
+        v.push(s.to_string());
+    }
+    v.sort();
+    v.dedup();
+    v
+}
+
 pub fn num(text: &str) -> TP {
     (vec![w(text)], Prim::Lit(Lit::Num(text.parse::<f64>().expect("numeral"))))
 }
